@@ -63,6 +63,7 @@ type c01xGen struct {
 	defined []uint16 // defined lanes per virtual
 	physDef map[reg.ID]uint16
 	flags   bool
+	allow8H bool
 	nlabel  int
 	pending []string // forward labels to place
 }
@@ -274,7 +275,7 @@ func (g *c01xGen) step() {
 		g.flags = false
 	case 19: // high-byte views of one virtual
 		d := g.readable(reg.S16)
-		if d < 0 {
+		if d < 0 || !g.allow8H {
 			return
 		}
 		switch r.intn(3) {
@@ -305,7 +306,7 @@ func c01xGenerate(r *rng) *c01xProg {
 	if r.chance(1, 4) {
 		p.nvirt = 14 + r.intn(6) // around the size of the register file
 	}
-	g := &c01xGen{r: r, p: p, defined: make([]uint16, p.nvirt), physDef: map[reg.ID]uint16{}}
+	g := &c01xGen{r: r, p: p, defined: make([]uint16, p.nvirt), physDef: map[reg.ID]uint16{}, allow8H: r.chance(1, 3)}
 	// the four arguments are loaded by the prologue into virtuals 0..3
 	for v := 0; v < 4; v++ {
 		g.defined[v] = reg.S64.Mask()
